@@ -2,6 +2,7 @@
 from nk import report
 from rules import sym, err, elf
 from . import common
+from . import C02 as _c02
 
 EXPLANATION = (
     'Decides the structural clauses listed; does not decide the behaviour as a whole. T-SIB(b): every function that walks the '
@@ -31,5 +32,5 @@ def run(tier, t0):
     e1.floor = 5
     results = [sym.pool_walkers(prog, 8), sym.find_order(prog), sym.defnames(prog), sym.scope_width(prog), e1,
                sym.find_exhaustive(prog, lambda f: f.file in ("core/Symbols.cpp", "core/Macros.cpp"), 2), elf.layout(prog), elf.strtab_pair(prog), elf.patch_width(prog),
-               err.err2(prog, lambda f: f.file in ('core/Symbols.cpp',), table, floor=3)]
+               err.err2(prog, lambda f: f.file in ('core/Symbols.cpp',), table, floor=3), _c02.symset(prog)]
     return report.finish('C11', tier, results, EXPLANATION, [], common.TRUSTED, t0)
